@@ -108,7 +108,14 @@ TClose == /\ IsEvent("SessionCloses")
              /\ LET c == mf.ev = "none" \/ Rec.mf = <<mf'.taken, mf'.resumed, E(mf'.meta)>> IN
                   Chk("SessionCloses.flow", c) /\ broken' = ~c
              /\ UNCHANGED <<tid, dq>>
-TNext == TReset \/ TTarget \/ TIReq \/ TIResp \/ THandle \/ TCall \/ TApply \/ TClose
+\* {"ev":"IdlePoll","px":[intercepted,E(meta)]}: the real pump saw queue.Empty; logged for every started flow
+TIdle == /\ IsEvent("IdlePoll")
+         /\ IF broken THEN Skip ELSE
+            /\ IdlePoll
+            /\ LET c == Rec.px = <<px.icpt, E(px.meta)>> IN
+                 Chk("IdlePoll.nothing-changes", c) /\ broken' = ~c
+            /\ UNCHANGED <<tid, dq>>
+TNext == TIdle \/ TReset \/ TTarget \/ TIReq \/ TIResp \/ THandle \/ TCall \/ TApply \/ TClose
 TraceSpec == TInit /\ [][TNext]_tvars
 TraceAccepted == PrintT("TRACE_REACHED " \o ToString(TLCGet("stats").diameter - 1) \o " OF " \o ToString(Len(TraceLog)))
 ====
